@@ -24,7 +24,8 @@ SD(dh, rc, ao, ty) == [dh |-> dh, rc |-> rc, ao |-> ao, ty |-> ty]
 Base(p, ao, ty, h) ==
     LET d == Delta(1, p, 1) IN [sd |-> SD(ModelHash(d, h), 2, ao, ty), delta |-> d, h |-> h]
 
-Reser == {"none", "member_order", "whitespace", "escapes"}
+\* (outer_whitespace: white space before the first and after the last token of the request text - RFC 8259 ws value ws)
+Reser == {"none", "member_order", "whitespace", "outer_whitespace", "escapes"}
 SdMods == {"sd_deltahash", "sd_deltahash_truncated", "sd_deltahash_empty_digest", "sd_deltahash_respelled", "sd_recoverycommitment",
            "sd_anchororigin", "sd_type"}
 DeltaMods == {"delta_updatecommitment", "delta_patch_content", "delta_patch_added", "delta_patch_removed",
@@ -59,9 +60,14 @@ Suffix(r, algs) == ModelHash(r.sd, algs[1])
 WellFormedHash(h) == h[1] = "B64"
 Accepted(r, algs) == InList(r.h, algs) /\ WellFormedHash(r.sd.dh) /\ IsValid(r.delta, r.sd.dh)
 
-Cases == {c \in {[base |-> Base(p, ao, ty, h), mod |-> m, algs |-> l] :
-                    p \in Patches, ao \in {0, 1, 2}, ty \in {0, 1}, h \in Algs, m \in Mods, l \in AlgLists} :
-            InList(c.base.h, c.algs)}
+\* the namespace a request is parsed under is an argument of the call, any text: the DID is that text, a colon and the
+\* suffix - also when the text ends in a colon, has an empty part, or is one part only (nothing is trimmed or joined "cleanly")
+Namespaces == {"plain", "trailing_colon", "three_parts", "empty_part", "one_part", "outer_blanks"}
+
+Cases == {c \in {[base |-> Base(p, ao, ty, h), mod |-> m, algs |-> l, ns |-> n] :
+                    p \in Patches, ao \in {0, 1, 2}, ty \in {0, 1}, h \in Algs, m \in Mods, l \in AlgLists, n \in Namespaces} :
+            /\ InList(c.base.h, c.algs)
+            /\ c.ns # "plain" => c.mod = "none" /\ c.base.delta.patch \in {"replace", "mixed"}}
 
 Init == cs \in Cases
 Next == UNCHANGED cs
@@ -71,7 +77,8 @@ Expected(c) ==
     [accepted |-> Accepted(r, c.algs),
      sameDID  |-> Suffix(r, c.algs) = Suffix(c.base, c.algs),
      baseAccepted |-> Accepted(c.base, c.algs),
-     suffixAlg |-> c.algs[1]]
+     suffixAlg |-> c.algs[1],
+     did |-> <<c.ns, ":", "suffix">>]
 
 \* the property, on the model: a re-serialization keeps DID and verdict; any modification of a
 \* member changes the DID or is rejected
